@@ -197,6 +197,8 @@ def check_C17(chk, tier, seed):
     for ty in ("u64", "i64", "f64"):
         for p in leaf_patterns(rng, n64, 64):
             cases.append(f"LEAFDEC {ty} 8 {xb(p.to_bytes(8, 'big'))}")
+    # every seventh pattern once more through a reader that hands out one octet per read() call
+    cases += [c.replace("LEAFDEC ", "LEAFDECD ", 1) for c in cases[::7]]
     # encode side on in-range values
     r = rng.fork("enc")
     for k in ("u32", "i32", "en", "f32", "time", "ip4", "u64", "i64", "f64"):
@@ -206,7 +208,7 @@ def check_C17(chk, tier, seed):
     for i, (c, im, mo) in enumerate(zip(cases, impl, model)):
         mobs, o = split_obs(mo)
         chk.case(c, True)
-        chk.count(c.split()[1] if c.startswith("LEAFDEC") else "enc:" + c.split()[1])
+        chk.count(("dribble:" if c.startswith("LEAFDECD") else "") + c.split()[1] if c.startswith("LEAFDEC") else "enc:" + c.split()[1])
         chk.validated += 1
         ok = im == mobs
         if c.startswith("LEAFDEC") and ok:
@@ -516,6 +518,19 @@ def check_C03(chk, tier, seed):
     fam += [("display-stress", did, f, True) for did, f in display_stress_frames(eng)]
     fam += value_position_sweeps(eng, tier)
     cases = [f"X {did} {xb(f)}" for (_, did, f, _) in fam]
+    # the same frames again through other readers: sitting 1, 2, 3 or 5 octets into the buffer (a decoder that aligns
+    # padding to the reader's position instead of the value's length), and through a reader that hands out one octet per
+    # read() call (a value read with read() instead of read_exact()).  The reader must not matter.
+    nvar = 0
+    for (kind, did, f, must) in list(fam):
+        if kind in ("wellformed", "freebits", "display-stress", "type-table", "regress", "nest", "vendorize") or (kind == "utf8-at-every-position" and len(f) % 7 == 0):
+            k = (len(f) * 7 + nvar) % 4
+            k = 5 if k == 0 else k
+            cases.append(f"XO {did} {k} {xb(f)}")
+            fam.append((kind + "@offset", did, f, must))
+            cases.append(f"XD {did} {xb(f)}")
+            fam.append((kind + "@dribble", did, f, must))
+            nvar += 1
     impl, model = eng.run(cases)
     # oracle: is the returned tree the one the octets denote, and what is its reference encoding
     chk_lines, chk_idx = [], []
